@@ -53,7 +53,7 @@ const (
 
 type c14sOpDef struct {
 	kind, peer, conn, tag, val int
-	name                      string
+	name                       string
 }
 
 type c14sOp uint8 // index into c14sOpTab
@@ -180,11 +180,14 @@ type c14sInst struct {
 	m       c14sModel
 	closedP [c14sNC]bool // closed by a trim, Disconnected not yet delivered (statistics only)
 	pending error        // violation found while applying the start prefix
+	noExact bool         // skip the exact comparison (only while re-applying an already verified start prefix)
 	done    bool
-	trace   func(string)
 }
 
-func c14sNew(cfg c14sCfg, st *c14sStats, prefix []c14sOp) *c14sInst {
+// c14sNew builds a fresh manager + model and applies the start prefix. verifyPrefix=false skips the exact
+// GetTagInfo comparison while the prefix is applied: the code and the prefix are deterministic, and the search
+// has verified the prefix once on its first instance (the trim oracles stay on, the model needs their results).
+func c14sNew(cfg c14sCfg, st *c14sStats, prefix []c14sOp, verifyPrefix bool) *c14sInst {
 	in := &c14sInst{cfg: cfg, st: st, clk: clock.NewMock()}
 	in.m.low = cfg.low
 	cm, err := NewConnManager(cfg.low, cfg.high, WithGracePeriod(c14sGrace), WithSilencePeriod(c14sStep), WithClock(in.clk),
@@ -201,11 +204,13 @@ func c14sNew(cfg c14sCfg, st *c14sStats, prefix []c14sOp) *c14sInst {
 	for i := range in.conns {
 		in.conns[i] = &c14sFakeConn{idx: i, cl: &in.cl}
 	}
+	in.noExact = !verifyPrefix
 	for _, op := range prefix {
 		if err := in.apply(op); err != nil && in.pending == nil {
 			in.pending = err
 		}
 	}
+	in.noExact = false
 	return in
 }
 
@@ -434,6 +439,9 @@ func (in *c14sInst) resolvePruned() {
 
 // checkExact: the manager's connection count and every peer's tags / total / connections equal the model.
 func (in *c14sInst) checkExact() error {
+	if in.noExact {
+		return nil
+	}
 	m := &in.m
 	if got, want := in.cm.GetInfo().ConnCount, m.count(); got != want {
 		return c14sVio("conn-count-mismatch", "GetInfo().ConnCount=%d, the notifications delivered so far imply %d", got, want)
@@ -441,46 +449,56 @@ func (in *c14sInst) checkExact() error {
 	for p := 0; p < c14sNP; p++ {
 		e := &m.peers[p]
 		ti := in.cm.GetTagInfo(c14sPeerIDs[p])
-		gotVal, gotTags, gotConns := 0, map[string]int(nil), 0
-		var gotAddrs []string
+		gotVal, gotTags, gotConns := 0, map[string]int(nil), map[string]time.Time(nil)
 		if ti != nil {
-			gotVal, gotTags, gotConns = ti.Value, ti.Tags, len(ti.Conns)
-			for a := range ti.Conns {
-				gotAddrs = append(gotAddrs, a)
-			}
+			gotVal, gotTags, gotConns = ti.Value, ti.Tags, ti.Conns
 		}
 		if gotVal != e.value() {
 			return c14sVio("tag-total-mismatch", "peer %c: GetTagInfo().Value=%d, tag operations delivered so far imply %d (tags=%v)", c14sPeerNames[p], gotVal, e.value(), gotTags)
 		}
 		// per-tag values; an absent tag and a tag with value 0 are not distinguished
-		want := map[string]int{}
-		for t := range e.tagSet {
-			if e.tagSet[t] {
-				want[c14sTagNames[t]] = e.tagVal[t]
+		want := func(k string) int {
+			for t := range e.tagSet {
+				if k == c14sTagNames[t] && e.tagSet[t] {
+					return e.tagVal[t]
+				}
 			}
+			if k == c14sDecayName && e.dSet {
+				return e.dVal
+			}
+			return 0
 		}
-		if e.dSet {
-			want[c14sDecayName] = e.dVal
-		}
+		bad := ""
 		for k, v := range gotTags {
-			if want[k] != v {
-				return c14sVio("tags-mismatch", "peer %c: tag %q=%d, expected %d (all tags: %v, expected %v)", c14sPeerNames[p], k, v, want[k], gotTags, want)
+			if want(k) != v {
+				bad = k
 			}
 		}
-		for k, v := range want {
-			if gotTags[k] != v {
-				return c14sVio("tags-mismatch", "peer %c: tag %q=%d, expected %d (all tags: %v, expected %v)", c14sPeerNames[p], k, gotTags[k], v, gotTags, want)
+		for _, k := range [...]string{c14sTagNames[0], c14sTagNames[1], c14sDecayName} {
+			if gotTags[k] != want(k) {
+				bad = k
 			}
 		}
-		var wantAddrs []string
+		if bad != "" {
+			return c14sVio("tags-mismatch", "peer %c: tag %q=%d, expected %d (all tags: %v; model: %s)", c14sPeerNames[p], bad, gotTags[bad], want(bad), gotTags, m.snap())
+		}
+		ok := len(gotConns) == e.nconns()
 		for j, has := range e.conns {
-			if has {
-				wantAddrs = append(wantAddrs, c14sConnAddrs[2*p+j].String())
+			if _, got := gotConns[c14sConnAddrStr[2*p+j]]; got != has {
+				ok = false
 			}
 		}
-		sort.Strings(gotAddrs)
-		sort.Strings(wantAddrs)
-		if gotConns != e.nconns() || strings.Join(gotAddrs, " ") != strings.Join(wantAddrs, " ") {
+		if !ok {
+			var gotAddrs, wantAddrs []string
+			for a := range gotConns {
+				gotAddrs = append(gotAddrs, a)
+			}
+			sort.Strings(gotAddrs)
+			for j, has := range e.conns {
+				if has {
+					wantAddrs = append(wantAddrs, c14sConnAddrStr[2*p+j])
+				}
+			}
 			return c14sVio("peer-conns-mismatch", "peer %c: GetTagInfo().Conns=%v, the notifications delivered so far imply %v", c14sPeerNames[p], gotAddrs, wantAddrs)
 		}
 	}
